@@ -88,7 +88,7 @@ CLAIMED = {
         "thorough tier = all 3,652,425 dates (weekday, ISO week, quarter, PlusDays x6, 4 Period(), 4 Previous().Period(), 5 Hash()) and every string matching "
         "one of the four pattern regexps for all 10,000 years (2.21 M strings) plus malformed/mutated strings and 1 M random PlusDays; quick tier = 60 years. "
         "An independent Python oracle (datetime / isocalendar / fromisocalendar, Gregorian rule for year 0, stateful bucket check for the hashes) is evaluated "
-        "on the implementation's output.",
+        "on the implementation's output. The calendar requests are also run with the harness process in TZ=America/Santiago and TZ=America/Havana (daylight saving starts at midnight there); bucket hashes are compared up to renaming.",
    design="§4 C15", technique="Coq proof (lia over div/mod closed forms; one kernel-VM era sweep lifted by a 400-year shift lemma; fuel-bounded loop models) over hand model; "
                              "extracted-model-vs-Go differential correspondence, exhaustive over the whole finite domain in the thorough tier",
    note=TB + "Axioms: none (Closed under the global context, 22 theorems; 2 of them are *_refuted witnesses of the panics). Known finding printed, not suppressed beyond its exact inputs: "
@@ -137,7 +137,7 @@ CLAIMED = {
              "has no year label when it lies in ISO year -1: records dated 0000-01-01/02), K1-C12 (int64 overflow panics, K1 seen through the views). Tag filters "
              "are left to C13; --chart is not modelled (it adds a column, no number)."),
  "C02": dict(
-   text="21 theorems in coq/Properties/C02.v: entry minutes = the specification's sentence; total/should-total/diff equal the mathematical sums exactly when every partial sum fits safemath's range and crash otherwise (dichotomy, K1 witness); additivity, permutation invariance, independence of dates/overlaps; CloseOpenRanges characterised exactly (which records close, at which offset, when it refuses) and total --now = total + closing gains. Tied to the code by `klog total --diff [--now]` on conforming documents and on multi-open-range scenarios at chosen instants, compared with the model and with an independent Python evaluation of the specification's rules.",
+   text="21 theorems in coq/Properties/C02.v: entry minutes = the specification's sentence; total/should-total/diff equal the mathematical sums exactly when every partial sum fits safemath's range and crash otherwise (dichotomy, K1 witness); additivity, permutation invariance, independence of dates/overlaps; CloseOpenRanges characterised exactly (which records close, at which offset, when it refuses) and total --now = total + closing gains. Tied to the code by `klog total --diff [--now]` on conforming documents and on multi-open-range scenarios at chosen instants, compared with the model and with an independent Python evaluation of the specification's rules. Further suites: the same evaluations with a config.ini present (oracle-only: settings for what klog writes must not change what it reports) and `--now` around the daylight-saving switches of 2024 with the process in TZ=Europe/Berlin.",
    design="§4 C02", technique="Coq proof (list induction, lia) over hand model; differential correspondence + spec oracle",
    note=TB + 'Axioms: none. Known finding K1 (sums beyond int64 panic).'),
  "C01": dict(
